@@ -139,6 +139,10 @@ def rules(ctx):
     gap_guard(ctx)
     for o in ctx.obligations[before:]:
         o.id = o.id.replace("C01/R", "C01/R8.positions.R")
+    from . import formulas
+    before = len(ctx.obligations)
+    formulas.network_formulas(ctx, "R9")
+    ctx.obligations[before:] = [o for o in ctx.obligations[before:] if "idle_time" not in o.id]
     from . import order
     order.pair_order(ctx, "R2", only={N("can_reach")})
     # travel times used by the timing rule are the input's own matrix entries (shared with C17)
